@@ -169,6 +169,9 @@ pub struct Exec {
     pub panics: usize,
     /// resolver instances that live as long as this executor (`resolve_on`): one per expression
     pub resolvers: HashMap<String, snow::resolvers::BoxedCryptoResolver>,
+    /// conversions alternate between `into_*_transport_mode()` and the public `TryFrom<HandshakeState>` impls
+    /// (operation names `to_transport` / `to_transport_tf`, ...): both must behave identically
+    pub tf_toggle: bool,
 }
 
 fn drain(log: &Log) -> Vec<Ev> {
@@ -185,6 +188,7 @@ impl Exec {
             last_buf: Vec::new(),
             resolvers: HashMap::new(),
             panics: 0,
+            tf_toggle: false,
         }
     }
 
@@ -500,17 +504,25 @@ impl Exec {
     }
 
     pub fn convert(&mut self, sid: u32, stateless: bool) -> Out {
-        let op = format!("{} {}", if stateless { "to_stateless" } else { "to_transport" }, sid);
+        self.tf_toggle = !self.tf_toggle;
+        let tf = self.tf_toggle;
+        self.convert_via(sid, stateless, tf)
+    }
+
+    /// `via_tryfrom`: `TransportState::try_from(hs)` / `StatelessTransportState::try_from(hs)` instead of the methods.
+    pub fn convert_via(&mut self, sid: u32, stateless: bool, via_tryfrom: bool) -> Out {
+        let op = format!("{}{} {}", if stateless { "to_stateless" } else { "to_transport" }, if via_tryfrom { "_tf" } else { "" }, sid);
         let Some((sess, log)) = self.sessions.remove(&sid) else { return self.no_session(op) };
         let Sess::Hs(hs) = sess else {
             self.sessions.insert(sid, (sess, log));
             return self.no_session(op);
         };
         let r = catch_unwind(AssertUnwindSafe(move || -> Result<Sess, Error> {
-            if stateless {
-                Ok(Sess::Sts(Box::new(hs.into_stateless_transport_mode()?)))
-            } else {
-                Ok(Sess::Ts(Box::new(hs.into_transport_mode()?)))
+            match (stateless, via_tryfrom) {
+                (true, false) => Ok(Sess::Sts(Box::new(hs.into_stateless_transport_mode()?))),
+                (false, false) => Ok(Sess::Ts(Box::new(hs.into_transport_mode()?))),
+                (true, true) => Ok(Sess::Sts(Box::new(snow::StatelessTransportState::try_from(*hs)?))),
+                (false, true) => Ok(Sess::Ts(Box::new(snow::TransportState::try_from(*hs)?))),
             }
         }));
         let (res, out) = match r {
